@@ -575,8 +575,12 @@ void Monitor::on_service_end(int status)
                 return;
         if (status == ST_OK) {
                 if (!cmdq.empty() || !evq.empty() || !cands.empty()) {
-                        fail("C15", "service-ok-with-work-pending", "cat_service returned OK while command side expects " + head_desc(cmdq) + ", event side expects " + head_desc(evq) +
-                                                                        (cands.empty() ? "" : ", unit partially emitted: \"" + vis(cur_unit) + "\""));
+                        // verdict deferred to the end of the run: if the pending work is never done it is also a lost
+                        // unit / missing result code, not only a premature OK
+                        if (deferred_ok.empty())
+                                deferred_ok = "cat_service returned OK (service call " + std::to_string(svc_calls) + ") while command side expects " + head_desc(cmdq) +
+                                              ", event side expects " + head_desc(evq) + (cands.empty() ? "" : ", unit partially emitted: \"" + vis(cur_unit) + "\"");
+                        last_svc_ok = false;
                         return;
                 }
                 // quiescent: every accepted event has been popped and is finished
@@ -853,10 +857,25 @@ void Monitor::on_fresh()
         ev_quiet = true;
 }
 
+void Monitor::flush_deferred()
+{
+        if (deferred_ok.empty() || viol.set() || desync || off)
+                return;
+        std::string d = deferred_ok;
+        deferred_ok.clear();
+        if (!evq.empty())
+                fail("C15,C13,C11", "event-left-behind-after-ok", d + "; the event was never delivered afterwards");
+        else if (!cmdq.empty() && hold_phase != 1)
+                fail("C15,C01", "line-unanswered-after-ok", d + "; the line was never answered afterwards");
+        else
+                fail("C15", "service-ok-with-work-pending", d);
+}
+
 void Monitor::finish(bool drained)
 {
         if (stray)
                 classify_stray();
+        flush_deferred();
         if (dead() || !drained)
                 return;
         if (!cands.empty()) {
@@ -869,7 +888,7 @@ void Monitor::finish(bool drained)
                 return;
         }
         if (!evq.empty()) {
-                fail("C13", "accepted-event-not-delivered", "after the final drain still expecting " + head_desc(evq));
+                fail("C13,C11", "accepted-event-not-delivered", "after the final drain still expecting " + head_desc(evq));
                 return;
         }
 }
